@@ -2,6 +2,7 @@ import LitexModel.Timeout.Wb
 import LitexModel.Timeout.Axi
 import LitexModel.Timeout.AxiXbar
 import LitexModel.Timeout.BusErr
+import LitexModel.Timeout.Soc
 import LitexModel.DriverLib
 import LitexModel.Bits
 /-
@@ -23,6 +24,11 @@ import LitexModel.Bits
             per master: arr rv rresp rdata rlast ; error grant_w grant_r
   open axxbar <full> <n> <k> <dw> <sh>     same letter as axshared; out: the same without `error grant_w grant_r`
   open buserr <w> <init>                   in : bus_error                    out: bus_errors
+  open wbsoc <n> <k> <reg> <t> <dw> <sh> <init>      (InterconnectShared + SoCController wired as SoC.finalize does)
+       letter as wbshared; out: as wbshared, then bus_errors
+  open axsoc <full> <n> <k> <t> <dw> <sh> <init>     (AXI(Lite)InterconnectShared + SoCController + pass-through payload)
+       in : as axshared, then per master: awid awlen wlast arid arlen ; per slave: bid rid
+       out: as axshared, then per slave: awid awlen wlast arid arlen ; per master: bid rid ; bus_errors
 
   Address decoders: slave `j` answers iff `addr >>> sh == j` (addresses with `addr >>> sh ≥ k` are unmapped).
 -/
@@ -168,6 +174,42 @@ def numAxXbar (c : Axi.Cfg) : NumMachine (Axi.XState × Axi.XState) where
      axOutNats c (Axi.XbarW.out c s.1 xw) (Axi.XbarR.out c s.2 xr))
   key s := toString (repr s)
 
+/-! ### SoC glue: interconnect + bus error counter (+ AXI pass-through payload) -/
+
+def numWbSoc (c : Wb.Cfg) (init : Nat) : NumMachine Wb.SocState where
+  init := Wb.Soc.init c init
+  step s ins := (wbIn c.n c.k ins).map fun x =>
+    let (o, e) := (Wb.Soc.machine c 32 init).out s x
+    (Wb.Soc.next c 32 s x, wbOutNats c.n c.k o ++ [b2n o.error, s.ic.grant, e])
+  key s := toString (repr s)
+
+def axPM : List Nat → Axi.PM
+  | [awid, awlen, wlast, arid, arlen] => { awid, awlen, wlast := n2b wlast, arid, arlen }
+  | _ => {}
+
+def axPS : List Nat → Axi.PS
+  | [bid, rid] => { bid, rid }
+  | _ => {}
+
+def axSocIn (n k : Nat) (l : List Nat) : Option Axi.SocIn :=
+  let b := 4 * n + 4 * k + 3 * n + 5 * k
+  if l.length = b + 5 * n + 2 * k then
+    (axIn n k (l.take b)).map fun (xw, xr) =>
+      let pm := (chunks 5 n (l.drop b)).map axPM
+      let ps := (chunks 2 k (l.drop (b + 5 * n))).map axPS
+      { xw, xr, p := { pm := fun i => pm.getD i {}, ps := fun j => ps.getD j {} } }
+  else none
+
+def numAxSoc (c : Axi.Cfg) (init : Nat) : NumMachine Axi.SocState where
+  init := Axi.Soc.init c init
+  step s ins := (axSocIn c.n c.k ins).map fun x =>
+    let o := Axi.Soc.out c s x
+    (Axi.Soc.next c 32 s x,
+     axOutNats c o.ow o.or ++ [b2n (Axi.Soc.busError c s x), s.w.grant, s.r.grant] ++
+     ((List.range c.k).map fun j => let m := o.pay.toS j; [m.awid, m.awlen, b2n m.wlast, m.arid, m.arlen]).flatten ++
+     ((List.range c.n).map fun i => let v := o.pay.toM i; [v.bid, v.rid]).flatten ++ [o.errs])
+  key s := toString (repr s)
+
 /-! ### `open` dispatcher -/
 
 def openMachine (args : List String) (hin hout : IO.FS.Stream) : Option (IO Bool) :=
@@ -198,6 +240,14 @@ def openMachine (args : List String) (hin hout : IO.FS.Stream) : Option (IO Bool
     let full ← full.toNat?; let n ← n.toNat?; let k ← k.toNat?
     let dw ← dw.toNat?; let sh ← sh.toNat?
     some (serve (numAxXbar { n, k, dec := hiDec sh, t := none, dw, full := n2b full }) hin hout)
+  | ["wbsoc", n, k, reg, t, dw, sh, init] => do
+    let n ← n.toNat?; let k ← k.toNat?; let reg ← reg.toNat?; let t ← parseT t
+    let dw ← dw.toNat?; let sh ← sh.toNat?; let init ← init.toNat?
+    some (serve (numWbSoc { n, k, dec := hiDec sh, reg := n2b reg, t, dw } init) hin hout)
+  | ["axsoc", full, n, k, t, dw, sh, init] => do
+    let full ← full.toNat?; let n ← n.toNat?; let k ← k.toNat?; let t ← parseT t
+    let dw ← dw.toNat?; let sh ← sh.toNat?; let init ← init.toNat?
+    some (serve (numAxSoc { n, k, dec := hiDec sh, t, dw, full := n2b full } init) hin hout)
   | _ => none
 
 end Litex.Timeout
